@@ -427,7 +427,8 @@ func objectDefineOwnProperty(obj *object, name string, descriptor property, thro
 		// (Maybe put into switch ...)
 		mode0 := prop.mode
 		if mode1&0o200 != 0 {
-			if descriptor.isDataDescriptor() {
+			// a generic descriptor leaves [[Writable]] of a data property as it is (8.12.9 step 8)
+			if descriptor.isDataDescriptor() || (isDataDescriptor && descriptor.isGenericDescriptor()) {
 				mode1 &= ^0o200 // Turn off "writable" missing
 				mode1 |= (mode0 & 0o100)
 			}
